@@ -121,27 +121,42 @@ def is4in6 (b : Bytes) : Bool :=
 /-- 16-bit group `i` of a 16-byte address. -/
 def group (b : Bytes) (i : Nat) : Nat := (b[2*i]!).toNat * 256 + (b[2*i+1]!).toNat
 
-/-- End of the run of zero groups starting at `i` (fuel-bounded; at most 8 groups). -/
-def zeroRunEnd (b : Bytes) : Nat → Nat → Nat
+/-- The eight 16-bit groups. -/
+def groups (b : Bytes) : List Nat := (List.range 8).map (group b)
+
+/-- Which groups are zero. -/
+def zeroPat (gs : List Nat) : List Bool := gs.map (· == 0)
+
+/-- End of the run of zero groups starting at `j` (fuel-bounded; at most 8 groups). -/
+def runEndP (pat : List Bool) : Nat → Nat → Nat
   | 0, j => j
-  | fuel+1, j => if j < 8 ∧ group b j = 0 then zeroRunEnd b fuel (j+1) else j
+  | fuel+1, j => if j < 8 ∧ pat[j]! = true then runEndP pat fuel (j+1) else j
 
 /-- The longest run (length ≥ 2, leftmost on ties) of zero groups, as in `netip.Addr.appendTo6`;
     `(255, 255)` when there is none. -/
-def longestZeroRun (b : Bytes) : Nat × Nat :=
+def longestRunP (pat : List Bool) : Nat × Nat :=
   (List.range 8).foldl (fun (acc : Nat × Nat) i =>
-    let j := zeroRunEnd b 8 i
+    let j := runEndP pat 8 i
     if j - i ≥ 2 ∧ j - i > acc.2 - acc.1 then (i, j) else acc) (255, 255)
 
-/-- The printing loop of `appendTo6`. -/
-def renderV6From (b : Bytes) (zs ze : Nat) : Nat → Nat → Bytes
-  | 0, _ => []
-  | fuel+1, i =>
-    if i ≥ 8 then []
-    else if i = zs then
-      [colon, colon] ++ (if ze ≥ 8 then [] else hexNoPad (group b ze) ++ renderV6From b zs ze fuel (ze+1))
-    else
-      (if i > 0 then [colon] else []) ++ hexNoPad (group b i) ++ renderV6From b zs ze fuel (i+1)
+def longestZeroRun (b : Bytes) : Nat × Nat := longestRunP (zeroPat (groups b))
+
+/-- fields joined by a separator byte -/
+def joinSep (sep : UInt8) : List Bytes → Bytes
+  | [] => []
+  | [x] => x
+  | x :: y :: rest => x ++ [sep] ++ joinSep sep (y :: rest)
+
+/-- The colon-separated fields `appendTo6` prints for groups `gs` with the zero run `[zs, ze)`
+    elided: the groups before the run, an empty field for `::` (two at an end of the address), the
+    groups after it.  (The printing loop of `appendTo6`, written as the list of fields it emits;
+    compared with the real function by the differential run on every dialled address.) -/
+def v6Fields (gs : List Nat) (zs ze : Nat) : List Bytes :=
+  if zs < ze then
+    (gs.take zs).map hexNoPad ++
+      ([[]] ++ (if zs = 0 then [[]] else []) ++ (if ze = 8 then [[]] else [])) ++
+      (gs.drop ze).map hexNoPad
+  else gs.map hexNoPad
 
 /-- `net.IP(b).String()` for a 16-byte `b`: dotted quad when it is an IPv4-mapped address,
     RFC 5952 text otherwise. -/
@@ -149,12 +164,48 @@ def renderV6 (b : Bytes) : Bytes :=
   if is4in6 b then renderV4 (b.drop 12)
   else
     let z := longestZeroRun b
-    renderV6From b z.1 z.2 9 0
+    joinSep colon (v6Fields (groups b) z.1 z.2)
 
 /-- `net.JoinHostPort(host, strconv.Itoa(port))`. -/
 def joinHostPort (host : Bytes) (port : Nat) : Bytes :=
   if host.contains colon then [0x5b] ++ host ++ [0x5d, colon] ++ decimal port
   else host ++ [colon] ++ decimal port
+
+/-! ### what the dialer does with the dial string: `net.SplitHostPort` (Agent.DialContext) -/
+
+inductive Split where
+  | ok (host port : Bytes)
+  | err
+  deriving DecidableEq, Repr
+
+/-- Split at the LAST occurrence of `sep`: (before, after). -/
+def splitLast (sep : UInt8) (s : Bytes) : Option (Bytes × Bytes) :=
+  let r := s.reverse
+  match r.dropWhile (· != sep) with
+  | [] => none
+  | _ :: preRev => some (preRev.reverse, (r.takeWhile (· != sep)).reverse)
+
+/-- `net.SplitHostPort`. -/
+def splitHostPort (s : Bytes) : Split :=
+  match splitLast colon s with
+  | none => .err                                     -- missing port
+  | some (hp, port) =>
+    if s.head? = some 0x5b then
+      if ¬ s.contains 0x5d then .err                 -- missing ']'
+      else
+        let e := (s.takeWhile (· != 0x5d)).length     -- index of the first ']'
+        if e + 1 = s.length then .err                -- missing port
+        else if e + 1 = hp.length then
+          let host := (s.take e).drop 1
+          if (s.drop 1).contains 0x5b then .err      -- unexpected '['
+          else if (s.drop (e + 1)).contains 0x5d then .err   -- unexpected ']'
+          else .ok host port
+        else .err                                    -- too many colons / missing port
+    else
+      if hp.contains colon then .err                 -- too many colons
+      else if s.contains 0x5b then .err
+      else if s.contains 0x5d then .err
+      else .ok hp port
 
 /-! ### requests -/
 
